@@ -12,6 +12,15 @@ import (
 
 func init() { gens["C08"] = genC08 }
 
+// the quoted source text must not depend on the names of local variables: see alpha_c08.go
+func c08Normalize(f *goast.File) {
+	for _, d := range f.AST.Decls {
+		if fd, ok := d.(*ast.FuncDecl); ok {
+			alphaLocals(f.Fset, fd)
+		}
+	}
+}
+
 // method values `b.<name>` inside the first composite literal of the function, in source order
 func c08CompositeMethods(f *goast.File, fd *ast.FuncDecl) ([]string, error) {
 	var out []string
@@ -193,6 +202,7 @@ func genC08(repo string) (string, error) {
 	if err != nil {
 		return "", err
 	}
+	c08Normalize(f)
 	get := func(name string) (*ast.FuncDecl, error) { return f.Func("Builder", name) }
 
 	fd, err := get("peerPlan")
@@ -282,6 +292,19 @@ func genC08(repo string) (string, error) {
 		return "", err
 	}
 	o.strList("replace_candidates", c08CallArgs(f, fd, "planReplaceLeaders"), "builder.go planReplace: the candidates handed to planReplaceLeaders, source order")
+	// local definitions of planReplace (name := expression), source order
+	var defs []string
+	ast.Inspect(fd.Body, func(n ast.Node) bool {
+		if as, ok := n.(*ast.AssignStmt); ok && as.Tok == token.DEFINE && len(as.Lhs) == 1 && len(as.Rhs) == 1 {
+			if id, ok := as.Lhs[0].(*ast.Ident); ok {
+				if _, isBin := as.Rhs[0].(*ast.BinaryExpr); isBin {
+					defs = append(defs, id.Name+" := "+f.Src(as.Rhs[0]))
+				}
+			}
+		}
+		return true
+	})
+	o.strList("replace_defs", defs, "builder.go planReplace: boolean local definitions, source order")
 	fd, err = get("prepareBuild")
 	if err != nil {
 		return "", err
@@ -299,6 +322,7 @@ func genC08(repo string) (string, error) {
 	if err != nil {
 		return "", err
 	}
+	c08Normalize(sf)
 	lfd, err := sf.Func("ChangePeerV2Leave", "ConfVerChanged")
 	if err != nil {
 		return "", err
